@@ -144,16 +144,14 @@ Definition idx_norm (len : nat) (i : Z) : option nat :=
   let i' := if (i <? 0)%Z then (Z.of_nat len + i)%Z else i in
   if (i' <? 0)%Z || (Z.of_nat len <=? i')%Z then None else Some (Z.to_nat i').
 
-(* evalIndexRangeExpression: l and r after the negative adjustment and the clamp to the length.
-   Err: l > r.  The lower bound may still be negative: then the Go slice expression panics (nat_range). *)
-Definition range_norm (len : nat) (l r : Z) : res (Z * Z) :=
+(* evalIndexRangeExpression: l and r after the negative adjustment; Err when l > r; then both are clamped to
+   [0, len] (l = max(min(l, num), 0), same for r) *)
+Definition range_norm (len : nat) (l r : Z) : res (nat * nat) :=
   let n := Z.of_nat len in
   let l1 := if (l <? 0)%Z then (n + l)%Z else l in
   let r1 := if (r <? 0)%Z then (n + r)%Z else r in
-  if (r1 <? l1)%Z then Err else Ok (Z.min l1 n, Z.min r1 n).
-Definition nat_range (lr : Z * Z) : res (nat * nat) :=
-  let (l, r) := lr in
-  if (l <? 0)%Z || (r <? l)%Z then Stuck else Ok (Z.to_nat l, Z.to_nat r).
+  if (r1 <? l1)%Z then Err
+  else Ok (Z.to_nat (Z.max (Z.min l1 n) 0), Z.to_nat (Z.max (Z.min r1 n) 0)).
 
 Definition int64_ok (z : Z) : bool := (-9223372036854775808 <=? z)%Z && (z <=? 9223372036854775807)%Z.
 
@@ -625,10 +623,10 @@ Definition prim_step (c : cfg) (o : oracle) (infn : bool) (st : state) (p : prim
     | VInt _ => Err
     | _ =>
       n <- val_len h yv ;;
-      lr <- range_norm n l r ;;
+      '(l', r') <- range_norm n l r ;;
       '(h1, v) <- (match yv with
-                   | VArrS _ | VArrB _ => '(l', r') <- nat_range lr ;; arr_slice c h yv l' r'
-                   | VMapS _ | VMapB _ => '(l', r') <- nat_range lr ;; map_range c h yv l' r'
+                   | VArrS _ | VArrB _ => arr_slice c h yv l' r'
+                   | VMapS _ | VMapB _ => map_range c h yv l' r'
                    | _ => Ok (h, VNil)
                    end) ;;
       if negb (target_ok infn st x) then Dom else
@@ -793,10 +791,10 @@ Definition p_slice (yv : pval) (l r : Z) : res pval :=
   match yv with
   | PInt _ => Err
   | _ =>
-    lr <- range_norm (p_len yv) l r ;;
+    '(l', r') <- range_norm (p_len yv) l r ;;
     match yv with
-    | PArr a => '(l', r') <- nat_range lr ;; x <- lift (window a l' (r' - l')) ;; Ok (PArr x)
-    | PMap m => '(l', r') <- nat_range lr ;; x <- lift (window m l' (r' - l')) ;; Ok (PMap x)
+    | PArr a => x <- lift (window a l' (r' - l')) ;; Ok (PArr x)
+    | PMap m => x <- lift (window m l' (r' - l')) ;; Ok (PMap x)
     | _ => Ok PNil
     end
   end.
